@@ -21,6 +21,7 @@ use sos_core::{
 use std::panic::{catch_unwind, AssertUnwindSafe};
 mod logops;
 mod reducer;
+mod secrets;
 mod search;
 mod tree;
 
@@ -307,6 +308,7 @@ fn main() {
             if all || ty == "CommitHash" { roundtrip!("CommitHash", CommitHash, |r: &mut Rng| CommitHash(r.arr()), cases, seed); }
             if all || ty == "Comparison" { roundtrip!("Comparison", Comparison, gen_comparison, cases, seed); }
         }
+        "secret-roundtrip" => { rt().block_on(secrets::run(cases, seed)); }
         "log-ops" => { rt().block_on(logops::run(cases, seed)); }
         "search-index" => { search::run(cases, seed); }
         "tree-compare" => { tree::run(cases); }
